@@ -6,7 +6,8 @@
    numpy / PyTables / python and are universally quantified with the hypotheses written out in every statement. *)
 From Coq Require Import String List Bool Permutation ZArith.
 From LNML Require Import Model.H5 Proofs.H5P.
-From Run Require Import Gen_C05 Inst_C05_layout Inst_C05_stores Inst_C05_select Inst_C05_groups Inst_C05_builder Inst_C05_refuse.
+From LNML Require Model.Gds Model.GdsWf Proofs.GdsP.   (* read-only: the C01 theorem, for the composition below *)
+From Run Require Import Gen_C05 Inst_C05_layout Inst_C05_stores Inst_C05_select Inst_C05_groups Inst_C05_builder Inst_C05_refuse Inst_C05_skeleton Inst_C05_optimized.
 Import ListNotations.
 Open Scope string_scope.
 
@@ -106,6 +107,85 @@ Theorem C05_network_roundtrip_partial :
   Permutation sems (map (sem32_construct F r32 cval weq) cs).
 Proof. exact (gen_net_roundtrip gen all_layouts all_stores groups). Qed.
 Print Assumptions C05_network_roundtrip_partial.
+
+(* THE WHOLE DOCUMENT through the file tree  /neuroml{id, notes, neuroml_top_level} / network{id, notes, temperature} /
+   population_<id> | projection_<id> | inputList_<id> {attributes} / <id> : array with column_N names.
+   write_document / load_document (Model/H5.v) follow NeuroMLHdf5Writer.write + Network.exportHdf5 and parse_group /
+   start_group / end_group: groups named by the writer's prefixes and dispatched by String.prefix on the reader's prefixes (both
+   probed: skeleton_ok), the kind of a projection group from its constant "type" attribute, constructs without rows (sized
+   population: size attribute; chemical projection without connections: no table, rebuilt by finalise_projection), the builder's
+   `instances` flag RECOMPUTED from the loaded population groups (id attribute, table present and non-empty), children met in
+   any PyTables order (`corder`), any number of constructs (induction over the construct list), at most one network (PyTables
+   refuses a second group called "network").
+   supported_d d: every construct has a kind of the format, rows well formed for the document (full_wf, typed, variants of the
+   kind), no rows only for populations / chemical projections, the writer has a table for the variants present, and no non-unit
+   weight sits between two populations without instances (that is refused).
+   c01_premise d is EXACTLY the conclusion of C01 (Proofs/GdsP.v roundtrip) for the non-network top-level components.
+   Conclusion: the write succeeds, the load succeeds, document attributes and top-level components come back identical, and
+   for every network its attributes are identical and its constructs are, up to PyTables' order (Permutation), the float32
+   images sem32_dc of the document's constructs (kind, attribute fields, rows in canonical order). *)
+Theorem C05_document_roundtrip :
+  forall (F : Type) (r32 rint : F -> F) (cval : cst -> F) (ofnat : nat -> F) (other : F) (weq : F -> F -> bool) (isint : F -> bool),
+  (forall x, isint x = true -> rint (r32 x) = r32 x) -> (forall c, c <> CHalf -> rint (cval c) = cval c) ->
+  (forall c, r32 (cval c) = cval c) -> (forall x y, weq x y = true <-> x = y) ->
+  forall (X XML : Type) (xcls : X -> string) (xexport : X -> option XML) (xbuild : string -> XML -> option X)
+         (corder : list (cgroup F) -> list (cgroup F)),
+  (forall l, Permutation (corder l) l) ->
+  forall d : document F X,
+  supported_d F r32 cval weq isint X gen d ->
+  c01_premise F X XML xcls xexport xbuild d ->
+  exists f, write_document F r32 cval weq X XML xcls xexport gen d = Some f /\
+  exists nets, load_document F rint cval ofnat other weq X XML xbuild corder gen f
+               = Some (map (fun f => (f, dd_attrs F X d f)) (attr_fields "document"), dd_top F X d, nets)
+            /\ Forall2 (net_image F r32 cval weq) (dd_networks F X d) nets.
+Proof.
+  exact (fun F r32 rint cval ofnat other weq isint A1 A2 A3 A4 X XML xcls xexport xbuild corder P =>
+           document_roundtrip F r32 rint cval ofnat other weq isint A1 A2 A3 A4 X XML xcls xexport xbuild corder P
+                              gen all_layouts all_stores groups skeleton).
+Qed.
+Print Assumptions C05_document_roundtrip.
+
+(* ... composed with C01: the top-level components are typed trees of a binding table set that passes rt_wf; the premise is
+   discharged by Proofs/GdsP.v roundtrip (not re-proved here) *)
+Theorem C05_document_roundtrip_with_C01 :
+  forall (F : Type) (r32 rint : F -> F) (cval : cst -> F) (ofnat : nat -> F) (other : F) (weq : F -> F -> bool) (isint : F -> bool),
+  (forall x, isint x = true -> rint (r32 x) = r32 x) -> (forall c, c <> CHalf -> rint (cval c) = cval c) ->
+  (forall c, r32 (cval c) = cval c) -> (forall x y, weq x y = true <-> x = y) ->
+  forall (G : Type) (G_eqb : G -> G -> bool) (G_of_dec : Dec.dec -> G) (fmt_float fmt_double : G -> string)
+         (parse_float : string -> option G),
+  (forall x y : G, G_eqb x y = true <-> x = y) -> (forall x : G, parse_float (fmt_double x) = Some x) ->
+  (forall q : Dec.dec, G_of_dec (Dec.dec_norm q) = G_of_dec q) ->
+  forall (T : Gds.tables) (n : nat) (tag : string), GdsWf.rt_wf T = true ->
+  forall corder : list (cgroup F) -> list (cgroup F), (forall l, Permutation (corder l) l) ->
+  forall d : document F (Gds.obj G),
+  supported_d F r32 cval weq isint (Gds.obj G) gen d ->
+  (forall o, In o (dd_top F (Gds.obj G) d) -> GdsWf.typedb G G_eqb fmt_float parse_float n T o = true) ->
+  exists f, write_document F r32 cval weq (Gds.obj G) Gds.xml (Gds.o_cls G)
+                           (Gds.export G G_eqb G_of_dec fmt_float fmt_double n T tag) gen d = Some f /\
+  exists nets, load_document F rint cval ofnat other weq (Gds.obj G) Gds.xml (Gds.build G G_of_dec parse_float n T) corder gen f
+               = Some (map (fun f => (f, dd_attrs F (Gds.obj G) d f)) (attr_fields "document"), dd_top F (Gds.obj G) d, nets)
+            /\ Forall2 (net_image F r32 cval weq) (dd_networks F (Gds.obj G) d) nets.
+Proof.
+  exact (fun F r32 rint cval ofnat other weq isint A1 A2 A3 A4 G e dd ff fd p B1 B2 B3 T n tag W corder P d Hs Hty =>
+           document_roundtrip F r32 rint cval ofnat other weq isint A1 A2 A3 A4 (Gds.obj G) Gds.xml (Gds.o_cls G)
+             (Gds.export G e dd ff fd n T tag) (Gds.build G dd p n T) corder P gen all_layouts all_stores groups skeleton d Hs
+             (fun o Ho => GdsP.roundtrip G e dd ff fd p B1 B2 B3 T W n o (Hty o Ho) tag)).
+Qed.
+Print Assumptions C05_document_roundtrip_with_C01.
+
+(* the optimized loader (NetworkContainer.InstanceList / ConnectionList / InputsList.__getitem__) as a second reader over the
+   same tables: for the tables it can hold (locations; chemical projections of plain Connections, with or without segment /
+   fraction columns; input lists of plain Inputs) every field it delivers is the float32 image of the field written *)
+Theorem C05_optimized_row :
+  forall (F : Type) (r32 rint : F -> F) (cval : cst -> F) (ofnat : nat -> F) (isint : F -> bool),
+  (forall x, isint x = true -> rint (r32 x) = r32 x) -> (forall c, r32 (cval c) = cval c) ->
+  forall wt v ot oe, In wt (g_writer gen) -> opt_supported wt = true -> In v (wt_variants wt) ->
+  find (fun ot => String.eqb (ot_kind ot) (wt_kind wt)) (g_opt gen) = Some ot -> In oe (ot_entries ot) ->
+  forall (fields : string -> F) i, typed F isint fields -> defaults_ok F cval (wv_cols v) fields ->
+  field_stored (wv_cols v) (oe_field oe) = true \/ sem_default (oe_field oe) <> None ->
+  opt_decode F rint cval ofnat (wt_names wt) oe i (encode_row F r32 cval (wv_cols v) fields) = Some (r32 (fields (oe_field oe))).
+Proof. exact (fun F r32 rint cval ofnat isint A1 A3 => gen_optimized_row F r32 rint cval ofnat isint A1 A3 gen optimized). Qed.
+Print Assumptions C05_optimized_row.
 
 (* ids, population / synapse / component references, notes, temperature, sizes: every group attribute the
    specification lists is written from the field it is read into *)
